@@ -2021,14 +2021,17 @@ func (d *DFA) SearchReverseLimited(cache *DFACache, haystack []byte, start, end,
 		}
 	}
 
+	// The scan stopped at the anti-quadratic bound while the automaton was
+	// still alive: the leftmost start may lie before minStart, so whatever was
+	// seen so far is not the answer. Tell the caller to fall back.
+	if lowerBound > start {
+		return SearchReverseLimitedQuadratic
+	}
+
 	// EOI for reverse: check delayed match at region start
 	eoi := cache.getState(sid)
 	if eoi != nil && containsNFAMatch(d.nfa, eoi.NFAStates()) {
 		lastMatch = lowerBound
-	}
-
-	if lowerBound > start && lastMatch < 0 {
-		return SearchReverseLimitedQuadratic
 	}
 
 	return lastMatch
